@@ -3,6 +3,7 @@ package c01
 import (
 	"fmt"
 	"strings"
+	"testing"
 
 	"pgregory.net/rapid"
 
@@ -45,6 +46,11 @@ func CheckAck(a *inssvc.Analysis) error {
 			}
 			blk := a.BlockOf(s)
 			what := fmt.Sprintf("submission %d (%s, request %d, attempt %d, %d rows, first row %q)", s.ID, s.Kind, p.ReqID, n+1, len(s.Rows), s.Rows[0].Marker)
+			for wi, werr := range s.Waiters() {
+				if werr != err {
+					return fmt.Errorf("%s: two waiters on the same promise got different answers: the first %v, additional waiter %d %v (exactly one answer per request)", what, err, wi+1, werr)
+				}
+			}
 			if err == nil {
 				if blk == nil {
 					return fmt.Errorf("%s was acknowledged but no INSERT contains its rows", what)
@@ -349,22 +355,43 @@ func addStress(r *evid.Run, quick, thorough int) {
 	evid.Add(r, evid.Prop[inssvc.Stress]{
 		Name: "stress", Quick: quick, Thorough: thorough,
 		Gen: func(rt *rapid.T) inssvc.Stress { return inssvc.GenStress(rt, 8, 12) },
+		WAL: true,
 		Pred: func(s inssvc.Stress, o *evid.Obs) error {
-			runs := 1
-			if o.Witness {
-				runs = 20 // free-running schedules are not replayable: try the case repeatedly
-			}
-			for i := 0; i < runs; i++ {
-				tr := inssvc.RunStress(s)
-				a := inssvc.Analyse(tr)
-				if i == 0 {
-					Classify(a, o)
+			if RaceT != nil {
+				// under the race detector every case runs as a sub-test: a data race reported inside
+				// qryn while the case runs fails that sub-test, and so this case. A schedule in which
+				// the detector fires is one under which none of the guarantees can be relied on; the
+				// unchanged tree is race-free on these paths (the drivers shut down quiescently).
+				var err error
+				ok := RaceT.Run("case", func(*testing.T) { err = stressBody(s, o) })
+				if err == nil && !ok {
+					return fmt.Errorf("the race detector reported a data race while this stress case ran (report above: \"WARNING: DATA RACE\"): " +
+						"unsynchronised access in the promise / insert-service code during concurrent pushes")
 				}
-				if err := CheckAck(a); err != nil {
-					return err
-				}
+				return err
 			}
-			return nil
+			return stressBody(s, o)
 		},
 	})
+}
+
+// RaceT is set by TestRace.
+var RaceT *testing.T
+
+func stressBody(s inssvc.Stress, o *evid.Obs) error {
+	runs := 1
+	if o.Witness {
+		runs = 20 // free-running schedules are not replayable: try the case repeatedly
+	}
+	for i := 0; i < runs; i++ {
+		tr := inssvc.RunStress(s)
+		a := inssvc.Analyse(tr)
+		if i == 0 {
+			Classify(a, o)
+		}
+		if err := CheckAck(a); err != nil {
+			return err
+		}
+	}
+	return nil
 }
